@@ -29,7 +29,7 @@ ROOT = os.path.dirname(HERE)
 sys.path.insert(0, ROOT)
 
 ALL = ["C01", "C02", "C03", "C04", "C05", "C06", "C07", "C08", "C09", "C10",
-       "C11", "C12", "C13", "C14", "C15", "C16", "C17", "C19", "C20"]
+       "C11", "C12", "C13", "C14", "C15", "C16", "C17", "C18", "C19", "C20"]
 PROPS = ALL
 
 
